@@ -183,6 +183,9 @@ func safeprimeGenerateRule(P *Program, R *Report) {
 	if fn == nil {
 		return
 	}
+	if disabledStub(P, R, rule, kSPGen, fn) {
+		return
+	}
 	be := P.bigEval(fn)
 	var retV ssa.Value
 	for _, r := range returnsOf(fn) {
@@ -503,6 +506,9 @@ func goroutineProtocolRule(P *Program, R *Report, rule string) {
 	if fn == nil {
 		return
 	}
+	if disabledStub(P, R, rule, kGenConc, fn) {
+		return
+	}
 	// goroutine bodies
 	var bodies []*ssa.Function
 	inLoop := map[*ssa.Function]bool{}
@@ -727,4 +733,26 @@ func canProveRule(P *Program, R *Report, rule string) {
 		}
 	})
 	R.decide(rule, "keyproof.CanProve:residues", "CanProve compares residues modulo 8 of P, Q and their halves (>= 4 comparisons)", m >= 4, fmt.Sprintf("%d comparisons", m), P.Pos(fn.Pos()))
+}
+
+// disabledStub: in build configurations where generation is compiled out (android, ios) the function
+// consists of an unconditional panic: it never returns, starts no goroutine and the clauses about
+// what it returns hold vacuously. Recorded as its own obligation so that the evidence shows it.
+func disabledStub(P *Program, R *Report, rule, key string, fn *ssa.Function) bool {
+	if !strings.HasPrefix(P.Config, "android/") && !strings.HasPrefix(P.Config, "ios/") {
+		return false // the build constraint of the stub: anywhere else generation must be real
+	}
+	if len(returnsOf(fn)) != 0 || len(fn.Blocks) != 1 {
+		return false
+	}
+	if _, ok := fn.Blocks[0].Instrs[len(fn.Blocks[0].Instrs)-1].(*ssa.Panic); !ok {
+		return false
+	}
+	for _, c := range callsIn(fn) {
+		if _, isGo := c.(*ssa.Go); isGo {
+			return false
+		}
+	}
+	R.ok(rule, key+":disabled-in-this-configuration", "the function is an unconditional panic in "+P.Config+" (generation compiled out): nothing is returned, no goroutine is started")
+	return true
 }
